@@ -18,6 +18,11 @@ first.  Channel-level transition system of one streaming websocket connection (a
   closes `outChan`; stoppers (processor.go:543-557): after `stopAll` close the service's stop channel;
 * the service: hands values to the forwarder of a channel (`emit`), closes a channel (`svcClose`).
 
+A streaming handler may hand back nil channels (with a nil error): the client messages `nostop` (new
+channel, nil stop channel) and `noout` (nil channel) model such requests; `Stream.noStop` / `noOut`
+remember it.  Nothing can be emitted on or closed on a nil channel, a nil stop channel cannot be
+closed (`Panic.closeOfNilStop`) and is never seen closed.
+
 `Variant` selects, per repair, the code as it is now (`true`) or as it was (`false`), so that the
 behaviour of the old code can be stated and refuted.  Sending on / closing a closed channel is the
 outcome `panic` (the process dies: no further step).  Capacities of `clientInputs` and `outChan`
@@ -35,12 +40,16 @@ structure Variant where
   readerCloses : Bool
   /-- a channel the handler returns a second time is not given a second forwarder -/
   dedupe : Bool
+  /-- nil channels handed back by a streaming handler are survived: a nil stop channel is left
+  alone by the stopper, a nil output channel gets no forwarder (the request is handled like a
+  failing one); `false`: the stopper closes whatever it was given, every request gets a forwarder -/
+  nilSafe : Bool
   deriving DecidableEq, Repr
 
 /-- the code as it is -/
-def Variant.fixed : Variant := ⟨true, true, true⟩
-/-- the code before the three repairs -/
-def Variant.old : Variant := ⟨false, false, false⟩
+def Variant.fixed : Variant := ⟨true, true, true, true⟩
+/-- the code before the repairs -/
+def Variant.old : Variant := ⟨false, false, false, false⟩
 
 structure Caps where
   inCap : Nat    -- `make(chan []byte, 10)`  (websocket.go:313)
@@ -55,6 +64,8 @@ inductive CMsg where
   | reuse (j : Nat)   -- valid request, the handler returns the channel of stream `j` again
   | garbage           -- does not decode
   | failing           -- decodes, the handler returns an error (or panics: same path)
+  | nostop            -- valid request, the handler returns a new channel and a nil stop channel
+  | noout             -- valid request, the handler returns a nil channel (and a stop channel, no error)
   deriving DecidableEq, Repr
 
 /-- what the write loop puts on the wire -/
@@ -73,7 +84,7 @@ inductive FPc where
   deriving DecidableEq, Repr
 
 inductive Panic where
-  | sendOnClosedInputs | sendOnClosedOut | closeOfClosedOut
+  | sendOnClosedInputs | sendOnClosedOut | closeOfClosedOut | closeOfNilStop
   deriving DecidableEq, Repr
 
 /-- one channel handed out by the streaming handler, with its forwarder(s) and its stop channel -/
@@ -84,6 +95,8 @@ structure Stream where
   fwd : FPc := .recv            -- the forwarder of the channel
   extra : List FPc := []        -- more forwarders on the same channel (only without `dedupe`)
   emitted : List Nat := []      -- ghost: the values handed to forwarders, in order
+  noStop : Bool := false        -- the handler returned a nil stop channel: nobody can be told
+  noOut : Bool := false         -- the handler returned a nil channel: nothing can be emitted on or closed
   deriving DecidableEq, Repr
 
 structure St where
@@ -148,12 +161,28 @@ def adapterFail (v : Variant) (s : St) : St :=
     -- `close(outChan); return` — `stopAll` is never closed
     { closeOut s with adone := true }
 
-/-- the handler returned a new channel (processor.go:529-617) -/
-def newStream (v : Variant) (s : St) : St :=
+/-- the handler returned a new channel `t` (processor.go:533-640) -/
+def newStream (v : Variant) (s : St) (t : Stream := {}) : St :=
   if v.guardedOut then
-    if s.outClosed then { s with streams := s.streams ++ [{ refused := true, fwd := .done }] }
-    else { s with fcount := s.fcount + 1, streams := s.streams ++ [{}] }
-  else { s with streams := s.streams ++ [{}] }
+    if s.outClosed then { s with streams := s.streams ++ [{ t with refused := true, fwd := .done }] }
+    else { s with fcount := s.fcount + 1, streams := s.streams ++ [t] }
+  else { s with streams := s.streams ++ [t] }
+
+/-- the handler returned a nil channel and no error (processor.go:537-547): there is nothing to
+stream and a forwarder would wait for ever — `ended = true; endStream()` like for a failing
+handler, the request counts as refused (its stopper does not wait for `stopAll`), no forwarder.
+Without `nilSafe`: a forwarder like for any other channel. -/
+def nilOut (v : Variant) (s : St) : St :=
+  if v.nilSafe then
+    adapterFail v { s with streams := s.streams ++ [{ refused := true, fwd := .done, noOut := true }] }
+  else newStream v s { noOut := true }
+
+/-- the stopper of channel `k` does its work (processor.go:560-577): a nil stop channel is left
+alone (`stopClosed` then only says that the stopper has run); without `nilSafe` it is closed like
+any other: `close of nil channel` -/
+def stopChan (v : Variant) (s : St) (k : Nat) (st : Stream) : St :=
+  if st.noStop && !v.nilSafe then { s with panic := some .closeOfNilStop }
+  else { s with streams := s.streams.set k { st with stopClosed := true } }
 
 /-- the handler returned channel `j` again and there is no `dedupe`: one more forwarder on it -/
 def extraFwd (v : Variant) (s : St) (j : Nat) (st : Stream) : St :=
@@ -208,6 +237,8 @@ def step (v : Variant) (caps : Caps) (s : St) : Act → Option St := fun a =>
       | .garbage => some (adapterFail v s)
       | .failing => some (adapterFail v { s with calls := s.calls + 1 })
       | .fresh => some (newStream v { s with calls := s.calls + 1 })
+      | .nostop => some (newStream v { s with calls := s.calls + 1 } { noStop := true })
+      | .noout => some (nilOut v { s with calls := s.calls + 1 })
       | .reuse j =>
         let s := { s with calls := s.calls + 1 }
         match s.streams[j]? with
@@ -217,7 +248,7 @@ def step (v : Variant) (caps : Caps) (s : St) : Act → Option St := fun a =>
     match s.streams[k]? with
     | none => none
     | some st =>
-      if st.chanClosed then none else
+      if st.chanClosed || st.noOut then none else
       match getFwd st f with
       | some .recv =>
         some { s with streams := s.streams.set k (setFwd { st with emitted := st.emitted ++ [x] } f (.hold x)) }
@@ -225,7 +256,9 @@ def step (v : Variant) (caps : Caps) (s : St) : Act → Option St := fun a =>
   | .svcClose k =>
     match s.streams[k]? with
     | none => none
-    | some st => if st.chanClosed then none else some { s with streams := s.streams.set k { st with chanClosed := true } }
+    | some st =>
+      if st.chanClosed || st.noOut then none
+      else some { s with streams := s.streams.set k { st with chanClosed := true } }
   | .fStep k f =>
     match s.streams[k]? with
     | none => none
@@ -252,9 +285,7 @@ def step (v : Variant) (caps : Caps) (s : St) : Act → Option St := fun a =>
     match s.streams[k]? with
     | none => none
     | some st =>
-      if (s.stopAll || st.refused) && !st.stopClosed then
-        some { s with streams := s.streams.set k { st with stopClosed := true } }
-      else none
+      if (s.stopAll || st.refused) && !st.stopClosed then some (stopChan v s k st) else none
   | .wOut =>
     if s.wdone then none else
     match s.outq with
@@ -380,6 +411,7 @@ def settle (c : Conn) : Conn := settleAux .fixed 10000 c
 def parseMsg (s : String) : Option CMsg :=
   if s = "fresh" then some .fresh else if s = "garbage" then some .garbage
   else if s = "failing" then some .failing
+  else if s = "nostop" then some .nostop else if s = "noout" then some .noout
   else if s.startsWith "reuse" then (s.drop 5).toString.toNat?.map .reuse else none
 
 def showFrame : Frame → String
@@ -410,7 +442,7 @@ def ok (s : State) (c : Option Conn) : State × String :=
 /-- operations (see harness/cmd/onetharness/c15.go):
 `open c m`, `csend c m`, `wstart c n`, `emit c k v`, `svcclose c k`, `cread c`, `cleave c close|drop`,
 `wstop c k`, `hold c p`, `release c p`, `wheld c p`, `flood c k v n`, `wexit c n`, `cmute c`, `wclosed c`,
-`cping c`, `ping v`, `gc`, `alive` -/
+`cping c`, `ping v`, `gc`, `census`, `alive` -/
 def step (s : State) (toks : List String) : State × String :=
   match toks with
   | ["open", n, "unregistered"] =>
@@ -454,7 +486,8 @@ def step (s : State) (toks : List String) : State × String :=
     match k.toNat?, find s n with
     | some k, some c =>
       (s, match c.st.streams[k]? with
-          | some st => if st.stopClosed then "ok" else "timeout"
+          -- a nil stop channel is never seen closed
+          | some st => if st.stopClosed && !st.noStop then "ok" else "timeout"
           | none => "timeout")
     | _, _ => (s, "bad-op")
   | ["flood", n, k, x, cnt] =>
@@ -513,6 +546,11 @@ def step (s : State) (toks : List String) : State × String :=
     match find s n with
     | some c => (s, if c.st.wsClosed then "ok" else "timeout")
     | none => (s, "bad-op")
+  | ["census"] =>
+    -- goroutine census of the server process: no routine of `ProcessClientStreamRequest` (adapter,
+    -- stoppers, forwarders) of any connection is left
+    (s, if s.conns.all (fun c => c.st.adone && c.st.streams.all (fun st => st.fwd == .done && st.stopClosed))
+        then "ok" else "stuck")
   | ["gc"] => (s, "ok")     -- a garbage collection in the server process: channels are told apart by identity
   | ["alive"] => (s, "ok")
   | _ => (s, "bad-op")
